@@ -5,7 +5,7 @@
 wt="$1"; demo="$2"; log="$3"
 {
   echo "== tests on $wt"
-  (cd "$wt" && PYTHONPATH="$wt/src" JAX_PLATFORMS=cpu /venv/bin/python -m pytest -q -p no:cacheprovider --timeout=900 --continue-on-collection-errors 2>&1 | tail -4)
+  (cd "$wt" && PYTHONPATH="$wt/src" JAX_PLATFORMS=cpu /venv/bin/python -m pytest -q -p no:cacheprovider --timeout=2400 --continue-on-collection-errors 2>&1 | tail -4)
   echo "== demo on $wt"
   PYTHONPATH="$wt/src" JAX_PLATFORMS=cpu /venv/bin/python "$demo" "$wt" 2>&1 | tail -5; echo "exit=${PIPESTATUS[0]}"
   echo "== demo on /repo"
